@@ -804,7 +804,7 @@ let vx_js9 = vx_into_vec(all_judgements); let mut vx_i9: usize = 0;
     let ghost mut vx_pv: Set<TypeVariable> = Set::empty();
     let ghost mut vx_pe: Set<Equality> = Set::empty();
     let ghost mut vx_pj: Set<Judgement> = Set::empty();
-//@loop 1
+//@loop 1 kind=while
         invariant
             vx_i1 <= vx_vars1.len(),
             forest.wf(),
@@ -812,7 +812,7 @@ let vx_js9 = vx_into_vec(all_judgements); let mut vx_i9: usize = 0;
             forall|v: TypeVariable| forest.dat(v) is None,                                                               //@ob C14.unify.no_equal_enters_class_data
             forest.enumerated() == 0,
         decreases vx_vars1.len() - vx_i1,                                                                                //@ob C03.unify.population_loops_terminate
-//@loop 2
+//@loop 2 kind=while
         invariant
             vx_i2 <= vx_vars2.len(),
             forest.wf(),
@@ -821,7 +821,7 @@ let vx_js9 = vx_into_vec(all_judgements); let mut vx_i9: usize = 0;
             forall|k: int| 0 <= k < vx_i2 ==> honoured_for(state, &forest, #[trigger] vx_vars2@[k]),                       //@ob C14.unify.declared_equal_same_class
             forest.enumerated() == 0,
         decreases vx_vars2.len() - vx_i2,                                                                                //@ob C03.unify.population_loops_terminate
-//@loop 3
+//@loop 3 kind=while
             invariant
                 vx_i3 <= vx_exprs3.len(),
                 forest.wf(),
@@ -856,7 +856,7 @@ let vx_js9 = vx_into_vec(all_judgements); let mut vx_i9: usize = 0;
             assert(honoured_for(state, &forest, vx_vars2@[k]));
         }
     }
-//@loop 4
+//@loop 4 kind=loop
         invariant
             polling_interval == old(watchdog).interval(), watchdog.interval() == old(watchdog).interval(),
             forest.wf(),
@@ -877,7 +877,7 @@ let vx_js9 = vx_into_vec(all_judgements); let mut vx_i9: usize = 0;
     proof { assert(all_resolved(&forest)); }                                                                            //@ob C14.unify.stops_only_at_a_fixpoint C03.unify.stops_only_at_a_fixpoint
 //@proof loopstart #4
         proof { vx_f4 = forest; }
-//@loop 5
+//@loop 5 kind=while
             invariant
                 vx_i5 <= vx_sets5.len(),
                 polling_interval == old(watchdog).interval(), watchdog.interval() == old(watchdog).interval(),
@@ -910,7 +910,7 @@ let vx_js9 = vx_into_vec(all_judgements); let mut vx_i9: usize = 0;
                 if counter as nat % polling_interval as nat == 0 { vx_due = vx_due + 1; }
                 lemma_polls_due_step(counter as nat, polling_interval as nat);
             }
-//@loop 6
+//@loop 6 kind=loop
                 invariant
                     forest.wf(),
                     !(current is Equal),                                                                                 //@ob C14.unify.merge_precondition
